@@ -107,8 +107,23 @@ package cli
 
 //@ func RunScanParallel
 //@   noframe
-//@   protocol-only C10
+//@   protocol-only C10 C16
 //@   deterministic
+// C16: every collected file gets its own worker (launched (ghost) counts the workers started)
+//@   ghost launched int
+//@   init launched = 0
+//@   call (*golang.org/x/sync/errgroup.Group).Go update launched = launched + 1
+//@   loop 1 complete [C16.every]
+//@   loop 1 invariant [C16.every] launched == #i
+
+//@ func ProcessFilesParallel
+//@   noframe
+//@   protocol-only C16
+//@   ghost launched int
+//@   init launched = 0
+//@   call (*golang.org/x/sync/errgroup.Group).Go update launched = launched + 1
+//@   loop 1 complete [C16.every]
+//@   loop 1 invariant [C16.every] launched == #i
 
 // RunScanLogic sorts the alerts; a sort of an unordered collection would need a total comparator.
 //@ func RunScanLogic$1
